@@ -5,7 +5,7 @@ import pvlib
 from pvlib import Reporter, write_evidence, tlc_gen, pv, read_ndjson, log, OUT, ToolError
 
 
-def scan_check(prop, tier, replay, cfgs, fields, rule, assumptions=(), parse=False, pre=None):
+def scan_check(prop, tier, replay, cfgs, fields, rule, assumptions=(), parse=False, pre=None, tstream=()):
     """pre: (rc, coverage) of a preceding sub-check whose coverage is merged into this evidence"""
     """cfgs: list of (cfg id, max text length)"""
     t0 = time.time()
@@ -60,6 +60,47 @@ def scan_check(prop, tier, replay, cfgs, fields, rule, assumptions=(), parse=Fal
                        "cfg": r["vec"]["cfg"], "text": r["vec"]["text"],
                        "expected_token": exp_tok, "actual_token": m["actual"] if isinstance(m["actual"], dict) else None},
                       f"{m['what']}: cfg {r['vec']['cfg']} text {json.dumps(r['vec']['text'])}: expected {json.dumps(m['expected'])[:300]} got {json.dumps(m['actual'])[:300]}")
+    # TokenStream.tla leg: every operation sequence (lookahead(n) incl. n = K, take_skip_tokens, consume) of length MaxOps on
+    # every text, for K = 1..3: the invariants are model-checked and each sequence is replayed on the real TokenStream
+    ts_cov = None
+    if (tstream and not replay) or (replay and "ops" in json.load(open(replay))["case"].get("vec", {})):
+        ts_vec = os.path.join(OUT, f"{prop}_{tier}.ts.vec.ndjson")
+        ts_tot = {"generated": 0, "distinct": 0, "vectors": 0}
+        if replay:
+            with open(ts_vec, "w") as f:
+                f.write(json.dumps(json.load(open(replay))["case"]["vec"]) + "\n")
+        else:
+            def one_ts(a):
+                cid, n, k, nops = a
+                part = ts_vec + f".{cid}.{k}"
+                g = tlc_gen("TokenStream", {"CfgId": cid, "MaxText": n, "K": k, "MaxOps": nops},
+                            ["EmitTS", "HandedOutIsPrefix", "LookaheadIsRemainder", "BufferIsWindow"], 1, part,
+                            spec="SpecTS", run_prefix=f"{prop}_{tier}_ts_{cid}_{k}", no_shard_consts=True)
+                return part, g
+            jobs = [(cid, n, k, nops) for (cid, n, nops) in tstream for k in (1, 2, 3)]
+            with ThreadPoolExecutor(max_workers=8) as ex, open(ts_vec, "w") as fall:
+                for part, g in ex.map(one_ts, jobs):
+                    if g["violated"]:
+                        raise ToolError(f"TokenStream.tla invariant {g['violated']} violated:\n" + g["out"][-2000:])
+                    for l in open(part):
+                        fall.write(l)
+                        ts_tot["vectors"] += 1
+                    os.remove(part)
+                    ts_tot["generated"] += g["generated"]
+                    ts_tot["distinct"] += g["distinct"]
+        ts_out = os.path.join(OUT, f"{prop}_{tier}.ts.replay.ndjson")
+        pv(["replay", "tstream", ts_vec, ts_out], env={"PV_SCANCFGS": defs_path})
+        tres = read_ndjson(ts_out)
+        for r in tres[:-1]:
+            m = r["mismatch"]
+            rep.violation({"vec": r["vec"], "what": m["what"].split("/")[-1], "defs": {r["vec"]["cfg"]: defs.get(r["vec"]["cfg"])}, "cfg": r["vec"]["cfg"],
+                           "text": r["vec"]["text"], "k": r["vec"]["k"]},
+                          f"TokenStream {m['what']}: cfg {r['vec']['cfg']} text {json.dumps(r['vec']['text'])} k={r['vec']['k']}: expected "
+                          f"{json.dumps(m['expected'].get('result'))[:200]} got {json.dumps(m['actual'])[:200]} after ops "
+                          f"{json.dumps([(o['op'], o['n']) for o in r['vec']['ops']])}")
+        tsum = tres[-1]["summary"]
+        ts_cov = {"states": ts_tot["distinct"], "sequences_replayed": tsum["vectors"], "operations": tsum["evaluations"], "tags": tsum["tags"],
+                  "configs": [list(x) for x in tstream]}
     samples = []
     with open(vec_path) as f:
         for i, l in enumerate(f):
@@ -73,6 +114,10 @@ def scan_check(prop, tier, replay, cfgs, fields, rule, assumptions=(), parse=Fal
            "evaluations": summary["evaluations"], "distinct_nontrivial": summary["tags"].get("two_or_more_tokens", 0),
            "rule": rule, "tags": summary["tags"], "spaces": space_cov, "exhaustive": True,
            "known_findings_seen": rep.known, "tlc_wall_s": round(tot["wall"], 1)}
+    if ts_cov:
+        cov["token_stream_leg"] = ts_cov
+        cov["states"] += ts_cov["states"]
+        cov["traces_validated_against_impl"] += ts_cov["sequences_replayed"]
     nviol = len(rep.violations)
     if pre:
         pc = pre[1]
@@ -96,12 +141,17 @@ BASE = ("Scanner.tla is an executable definition of the documented tokenisation 
 def c13(prop, tier, replay):
     n = 4 if tier == "quick" else 6
     cfgs = [(c, n) for c in ("basic", "plus1", "plus2", "look", "modes", "stack", "skipsw")] + [("cmt", n if tier == "quick" else 5)]
-    return scan_check(prop, tier, replay, cfgs, "tok",
+    nt = 2 if tier == "quick" else 3
+    tstream = [("basic", nt, 4), ("cmt", nt, 4), ("skipsw", nt, 4), ("stack", nt, 4)]
+    return scan_check(prop, tier, replay, cfgs, "tok", tstream=tstream, rule=
                       BASE + " with lookahead sizes k=1,2,3 and three consumption schedules (lazy, look ahead k before each consume, rotating): "
                       "all nine token sequences (type, byte offsets, skipped?) must equal the expected one. Configurations: shared-prefix literals, "
                       "a+/literal ties in both declaration orders, positive and negative lookahead, two states with enter, push/pop with pop on the "
-                      "empty stack and a state-specific skip token, comments; non-trivial: texts with >= 2 tokens",
-                      ["regular expressions are restricted to the fragment Scanner.tla interprets (literals, character-class+, the automatic tokens)"])
+                      "empty stack and a state-specific skip token, comments. TokenStream.tla leg: the look-ahead buffer as a state machine "
+                      "(construction, lookahead(n) incl. n = K, take_skip_tokens, consume with refills); TLC checks HandedOutIsPrefix, "
+                      "LookaheadIsRemainder and BufferIsWindow over every operation sequence of length 4 on every text of <= 2 (3) pieces for K = 1..3, "
+                      "and every sequence is replayed on the real TokenStream, result by result. non-trivial: texts with >= 2 tokens",
+                      assumptions=["regular expressions are restricted to the fragment Scanner.tla interprets (literals, character-class+, the automatic tokens)"])
 
 
 def c14(prop, tier, replay):
